@@ -132,6 +132,14 @@ def handmade():
     DTD = '<!DOCTYPE r [<!ATTLIST a id ID #IMPLIED dflt CDATA "dv"><!ATTLIST b id ID #IMPLIED>]>\n'
     L.append(inp("dtd-id-default-attrs", ss('<xsl:template match="/"><out a2="{name(id(\'a2\'))}" b3="{id(\'b3\')}" many="{count(id(\'a1 b1 nope\'))}"><xsl:for-each select="//a"><a d="{@dflt}" n="{count(@*)}"/></xsl:for-each></out></xsl:template>'),
                  doc('<r><a id="a1"><b id="b1">1</b></a><a dflt="own" id="a2"><b id="b3">3</b></a></r>', prolog=DTD)))
+    # every DTD attribute type next to ID: only ID-typed attributes enter the id() index (XPath 4.1) - IDREF / IDREFS values that point
+    # forwards, backwards or nowhere, name tokens and enumerated values that spell an ID or a non-ID, in every source form
+    DTD_T = ('<!DOCTYPE r [<!ATTLIST a id ID #IMPLIED ref IDREF #IMPLIED refs IDREFS #IMPLIED tok NMTOKEN #IMPLIED toks NMTOKENS #IMPLIED kind (i1|i2|zz) #IMPLIED txt CDATA #IMPLIED>'
+             '<!ATTLIST b id ID #IMPLIED ref IDREF #IMPLIED>]>\n')
+    IDS = ' '.join("i%d" % k for k in range(1, 8)) + " zz q"
+    L.append(inp("dtd-attribute-types", ss('<xsl:template match="/"><out n="{count(id(\'%s\'))}"><xsl:for-each select="id(\'%s\')"><hit name="{name()}" p="{count(preceding::*)}" a="{count(ancestor::*)}"/></xsl:for-each>'
+                                           '<fwd><xsl:value-of select="name(id(//a[1]/@ref))"/>|<xsl:value-of select="count(id(//@refs))"/>|<xsl:value-of select="count(id(//@tok | //@toks | //@kind | //@txt))"/></fwd></out></xsl:template>' % (IDS, IDS)),
+                 doc('<r><a ref="i5" refs="i6 i7 i3" tok="i4" toks="i4 i2" kind="i2" txt="i1"/><a id="i1" ref="i1"/><b ref="i7" id="i2"><a id="i3" refs="i1 i2"/></b><a ref="zz" tok="q"/><b id="i5"/><a id="i6" kind="zz"/></r>', prolog=DTD_T)))
     L.append(inp("dtd-doctype-node", ss('<xsl:template match="/"><out top="{count(/node())}" before="{count(/*/preceding-sibling::node())}" name="{name(/node()[last() - 1])}"/></xsl:template>'),
                  doc('<r><a id="a1"/></r>', prolog=DTD)))
     # ---- attribute values with escapes; characters needing escapes in the output
